@@ -43,6 +43,8 @@ type flow struct {
 	retTaint map[*core.Event][]taint
 	nilLocal map[*types.Var]bool // local currently holds the nil literal
 	idx      int
+	// superseded: sources whose value was replaced, in the local that held it, by another chain value
+	superseded map[*flowSource]bool
 }
 
 func newFlow(p *core.Prog, isSource func(*types.Var) bool) *flow {
@@ -193,6 +195,18 @@ func (f *flow) step(i int, ev *core.Event) {
 		}
 		if ev.Tok != token.ASSIGN && ev.Tok != token.DEFINE {
 			t = f.locals[v].union(t)
+		}
+		// a local that held a chain value is given another chain value: the newer predecessor takes
+		// precedence over the older one (the same decision as not reading the older one at all)
+		if len(t) > 0 {
+			for src := range f.locals[v] {
+				if _, still := t[src]; !still {
+					if f.superseded == nil {
+						f.superseded = map[*flowSource]bool{}
+					}
+					f.superseded[src] = true
+				}
+			}
 		}
 		f.locals[v] = t
 		f.nilLocal[v] = isNil
